@@ -815,6 +815,16 @@ int main(int argc, char** argv)
         play(gen::random_game(rng, b, PROP == "C07" ? 30 : 3, p, std::string("synth:") + gen::TEMPLATE_NAME[t]));
     }
     rec.count("synth-rejected-by-retro-legal-filter", rejected);
+    // directed: en passant as the only way out of a check (C01 move list, C07 mate/stalemate answers, C15/C17 on the ep move)
+    if (PROP == "C01" || PROP == "C07" || PROP == "C15" || PROP == "C17")
+        for (long i = 0; i < std::max(4L, synth / 400); ++i)
+        {
+            Board b;
+            if (!gen::only_ep_evasion(rng, b)) continue;
+            rec.count("synth:only-ep-evasion");
+            gen::Policy p = pol;
+            play(gen::random_game(rng, b, 2, p, "synth:only-ep-evasion"));
+        }
     // --- nested walks (C03), transposition walks are covered by shuffle games (C04)
     if (PROP == "C03")
     {
